@@ -32,7 +32,7 @@ CHECKS['C01'] = dict(
    note=PROTO_NOTE, technique='Coq proof (inductive invariant over a reactive machine, all input sequences) + differential correspondence', ref='§5, §6 C01')
 CHECKS['C02'] = dict(
    text='Theorems for every item list: ids returned by a receiver strictly increase (legal call states), a sender publishes each id at most once in increasing order '
-        'and its low-water mark is monotone; every payload handed over was read off the wire under exactly that id, publisher, source and a topic subscribed to BY NAME (C02_payload_and_topic_map; refuted for the pinned code, repaired by de2c375); receiver and sender machines compared with the real classes on every run; topic-map oracle and the C09 payload round-trip oracle on the implementation.',
+        'and its low-water mark is monotone; every payload handed over was read off the wire under exactly that id, publisher, source and a topic subscribed to BY NAME (C02_payload_and_topic_map; refuted for the pinned code, repaired by de2c375); every publish carries the id and the topic/payload list of a send() call of the run (C02_publisher_sends_what_it_was_given); receiver and sender machines compared with the real classes on every run; topic-map oracle and the C09 payload round-trip oracle on the implementation.',
    note=PROTO_NOTE, technique='Coq proof (ordering invariants over both machines) + differential correspondence', ref='§5, §6 C02')
 CHECKS['C05'] = dict(
    text="Theorems for every item list: a '??' source never pushes anything; an ephemeral request never rewinds/fast-forwards/discards; the publish gate of a non-balanced "
@@ -83,7 +83,7 @@ CHECKS['C03'] = dict(
         'send_maybe that publishes, at most once); THE LOSSLESS EDGE by refinement (C03_edge_lossless, C03_edge_nothing_dropped: for every interleaving of deliveries, poll answers, calls, timeouts and clock '
         'values a synchronized consumer - subscribe-all or an explicit topic list with renaming - fed in order by a well-formed publisher is handed exactly the first k published frames as its subscription sees them - ids, topics, payloads - and all of them once its socket is drained; C03_edge_lossless, C03_edge_lossless_explicit, C03_edge_end_to_end: one generic refinement, two instances); '
         'MQGlue model compared with the real MQ.send/recv/process_frames; the real ZMQReceiver run on schedules machine-checked to satisfy the edge theorem hypotheses; chain/tee/tee-rejoin/join pipelines of REAL '
-        'filters run in deterministic pipeline mode (PUB/SUB pipe capacity taken from the sockets own HWM options) and compared with the functional reference; C03_join_runahead_unbounded: a repeated request is credit, n repeats publish n frames for every n - the protocol half of known finding C03-join-runahead (independent join, the faster source runs ahead until zmq drops its frames; shown on the real code with real zmq).',
+        'filters run in deterministic pipeline mode (PUB/SUB pipe capacity taken from the sockets own HWM options) and compared with the functional reference; C03_relay_publishes_what_process_returned (one hop of the chain, publisher side: nothing invented, altered or sent under a later id); C03_join_runahead_unbounded: a repeated request is credit, n repeats publish n frames for every n - the protocol half of known finding C03-join-runahead (independent join, the faster source runs ahead until zmq drops its frames; shown on the real code with real zmq).',
    note=PROTO_NOTE + ' The chain-composition theorem over the network model is not proved (partial): explored in pipeline mode.',
    technique='Coq proof (refinement of the receiver machine to a three-counter abstract consumer; contract lemmas over the glue and sender machines) + differential correspondence + pipeline-mode exploration against a functional reference', ref='§5, §6 C03')
 CHECKS['C04'] = dict(
